@@ -18,6 +18,7 @@ EXTENDS Integers, Sequences, FiniteSets, TLC, Json, Rat, ModQ, Gauss
 CONSTANTS Configs,     \* set of [n0, c0, s0, media]: ambient index, cos and sin of incidence, media = set of <<n (Gaussian rational <<re, im>>), cos(theta)>>
           Betas,       \* set of <<cos b, sin b>>, each a Gaussian rational <<re, im>>
           MaxLayers,   \* thin layers on top of the substrate
+          EmitPols,    \* polarisations explored by this run (both, unless an emission run is partitioned)
           Variant, EmitOn
 
 VARIABLES cf, stack, pol, done, res
@@ -63,7 +64,7 @@ TFactor(st) == TFac[cf][st[Len(st)]]
 
 Stacks(c) == UNION {[1..k -> ValidLayers(c)] : k \in 1..(MaxLayers + 1)}
 
-Init == /\ cf \in Configs /\ pol \in {"s", "p"} /\ stack \in Stacks(cf) /\ done = FALSE /\ res = << >>
+Init == /\ cf \in Configs /\ pol \in EmitPols /\ stack \in Stacks(cf) /\ done = FALSE /\ res = << >>
 Compute == done = FALSE /\ done' = TRUE /\ res' = Solve(stack, pol) /\ UNCHANGED <<cf, stack, pol>>
 Next == Compute
 Spec == Init /\ [][Next]_vars
